@@ -95,6 +95,11 @@ def create(name, acq_name, from_file, md5, prefix, size):
 
     validate_md5(md5)
 
+    # The daemon compares hashes as strings against hashlib's lower-case
+    # hexdigest, so store the canonical spelling
+    if md5 is not None:
+        md5 = md5.lower()
+
     # Scan a file, if requested
     if from_file:
         # This is an early check to make sure we can create the file to save us from
